@@ -48,6 +48,36 @@ def run(prog, rep, tier):
         S.desugar = "all"
         summ, _ = run_function(S, f)
     message_safe(rep, S, f, "GUARD.message")
+    # 0 is a legal value of every numeric argument (K = 0 interventions, size 0, a range (0, hi)): `size or 1`, `K or 1`, `x if size else y` replace it
+    NUM = {("param", n_) for n_ in ("size", "K", "p")}
+    seen_terms = []
+    for fact in S.facts:
+        if fact.qname == Q:
+            seen_terms += [getattr(fact, "value", None), getattr(fact, "base", None), getattr(fact, "idx", None)] + list(getattr(fact, "args", []) or []) + [c for c, _ in fact.path]
+    seen_terms.append(T(summ.ret))
+    falsy = set()
+    for t0 in seen_terms:
+        if t0 is None:
+            continue
+        for x in walk(t0):
+            if isinstance(x, tuple) and len(x) == 3 and x[0] == "bool" and x[1] == "or" and len(x[2]) >= 2 and x[2][0] in NUM:
+                falsy.add((x[2][0][1], fmt(x)[:60]))
+            elif isinstance(x, tuple) and len(x) == 4 and x[0] == "phi":
+                c_ = x[1]
+                while isinstance(c_, tuple) and c_[0] == "unop" and c_[1] in ("not", "truth"):
+                    c_ = c_[2]
+                if c_ in NUM:
+                    falsy.add((c_[1], "... if %s else ..." % c_[1]))
+    for c_, pol in [(c, pl) for fact in S.facts if fact.qname == Q for c, pl in fact.path]:
+        while isinstance(c_, tuple) and c_[0] == "unop" and c_[1] in ("not", "truth"):
+            c_ = c_[2]
+        if c_ in NUM:
+            falsy.add((c_[1], "if %s:" % c_[1]))
+    if falsy:
+        for name_, txt in sorted(falsy):
+            rep.bad("FALSY.zero", fwhere(f), "`%s` takes the truth value of the numeric argument `%s`: the legal value 0 is treated like a missing argument" % (txt, name_))
+    else:
+        rep.ok("FALSY.zero", fwhere(f), "no branch or default depends on the truth value of K / size / p (0 is a legal value)")
     # sizes and targets must be successive draws of *one* generator: two generators built from the same seed repeat each other
     from .C13 import rng_rules
     rng_rules(rep, prog, f)
